@@ -240,7 +240,8 @@ class Representation(ObjectWithFields):
             # of the last fragment and dividing by number of media fragments (minus one)
             # provides the best estimate of fragment duration.
             # Note: len(rv.segments) also includes the init segment, hence the need for -2
-            seg_dur = segment_start_time // (len(rv.segments) - 2)
+            # segment_start_time is a decode time, which need not start at zero
+            seg_dur = (segment_start_time - rv.start_time) // (len(rv.segments) - 2)
             rv.mediaDuration = 0
             for seg in rv.segments[1:]:
                 rv.mediaDuration += seg.duration
